@@ -65,3 +65,28 @@ type Tagged struct {
 	Code string `gorm:"primaryKey"`
 	Name string
 }
+
+// Table for the condition properties: integer key and three integer columns.
+type T3 struct {
+	ID uint
+	A  int
+	B  int
+	C  int
+}
+
+// Soft-delete twin of T3.
+type S3 struct {
+	ID        uint
+	A         int
+	B         int
+	C         int
+	DeletedAt gorm.DeletedAt
+}
+
+// Belongs-to a soft-delete model (relation join of C08).
+type Holder struct {
+	ID    uint
+	Name  string
+	DocID uint
+	Doc   Doc
+}
